@@ -231,4 +231,9 @@ example : (fun r => r.1.zip r.2) (LK.Gen.SimC09.simRowT 0 [[1, 0], [4 / 5, 3 / 5
 example : ∀ j, j < 3 → LK.KNN.dot ([[1, 0], [4 / 5, 3 / 5], [3 / 5, 4 / 5]].getD 0 []) (([[1, 0], [4 / 5, 3 / 5], [3 / 5, 4 / 5]] : List (List LK.KNN.Q)).getD j []) ≤ 1 := by
   decide +kernel
 
+/-- …and the whole CSR triple of those three items, assembled from blocks of 2 rows: item 0 keeps its best neighbour (1), item 1 keeps
+    item 2 (24/25), item 2 keeps item 1 -/
+example : LK.Gen.SimC09.simBlocksT [[1, 0], [4 / 5, 3 / 5], [3 / 5, 4 / 5]] (1 / 10) (some 1) 2 (fun _ => 1)
+    = ([0, 1, 2, 3], [1, 2, 1], [4 / 5, 24 / 25, 24 / 25]) := by decide +kernel
+
 end Translations
